@@ -51,29 +51,36 @@ void __tsan_ignore_thread_end() {}
 void __tsan_atomic_thread_fence(int) {}
 void __tsan_atomic_signal_fence(int) {}
 
+// memory orders as in <atomic>: 0 relaxed 1 consume 2 acquire 3 release 4 acq_rel 5 seq_cst
+static inline bool moAcq(int mo) { return mo == 1 || mo == 2 || mo == 4 || mo == 5; }
+static inline bool moRel(int mo) { return mo == 3 || mo == 4 || mo == 5; }
+#define HB_LOAD(a, mo) hbAtomic((uintptr_t)(a), moAcq(mo), false, false)
+#define HB_STORE(a, mo) hbAtomic((uintptr_t)(a), false, moRel(mo), true)
+#define HB_RMW(a, mo) hbAtomic((uintptr_t)(a), moAcq(mo), moRel(mo), false)
+
 #define ATOMICS(N, T)                                                                                                          \
-	T __tsan_atomic##N##_load(const volatile T* a, int) { acc((void*)a, sizeof(T), false); return __atomic_load_n(a, __ATOMIC_SEQ_CST); } \
-	void __tsan_atomic##N##_store(volatile T* a, T v, int) { acc((void*)a, sizeof(T), true); __atomic_store_n(a, v, __ATOMIC_SEQ_CST); } \
-	T __tsan_atomic##N##_exchange(volatile T* a, T v, int) { acc((void*)a, sizeof(T), true); return __atomic_exchange_n(a, v, __ATOMIC_SEQ_CST); } \
-	T __tsan_atomic##N##_fetch_add(volatile T* a, T v, int) { acc((void*)a, sizeof(T), true); return __atomic_fetch_add(a, v, __ATOMIC_SEQ_CST); } \
-	T __tsan_atomic##N##_fetch_sub(volatile T* a, T v, int) { acc((void*)a, sizeof(T), true); return __atomic_fetch_sub(a, v, __ATOMIC_SEQ_CST); } \
-	T __tsan_atomic##N##_fetch_and(volatile T* a, T v, int) { acc((void*)a, sizeof(T), true); return __atomic_fetch_and(a, v, __ATOMIC_SEQ_CST); } \
-	T __tsan_atomic##N##_fetch_or(volatile T* a, T v, int) { acc((void*)a, sizeof(T), true); return __atomic_fetch_or(a, v, __ATOMIC_SEQ_CST); } \
-	T __tsan_atomic##N##_fetch_xor(volatile T* a, T v, int) { acc((void*)a, sizeof(T), true); return __atomic_fetch_xor(a, v, __ATOMIC_SEQ_CST); } \
-	T __tsan_atomic##N##_fetch_nand(volatile T* a, T v, int) { acc((void*)a, sizeof(T), true); return __atomic_fetch_nand(a, v, __ATOMIC_SEQ_CST); } \
-	int __tsan_atomic##N##_compare_exchange_strong(volatile T* a, T* c, T v, int, int)                                        \
+	T __tsan_atomic##N##_load(const volatile T* a, int mo) { acc((void*)a, sizeof(T), false); HB_LOAD(a, mo); return __atomic_load_n(a, __ATOMIC_SEQ_CST); } \
+	void __tsan_atomic##N##_store(volatile T* a, T v, int mo) { acc((void*)a, sizeof(T), true); HB_STORE(a, mo); __atomic_store_n(a, v, __ATOMIC_SEQ_CST); } \
+	T __tsan_atomic##N##_exchange(volatile T* a, T v, int mo) { acc((void*)a, sizeof(T), true); HB_RMW(a, mo); return __atomic_exchange_n(a, v, __ATOMIC_SEQ_CST); } \
+	T __tsan_atomic##N##_fetch_add(volatile T* a, T v, int mo) { acc((void*)a, sizeof(T), true); HB_RMW(a, mo); return __atomic_fetch_add(a, v, __ATOMIC_SEQ_CST); } \
+	T __tsan_atomic##N##_fetch_sub(volatile T* a, T v, int mo) { acc((void*)a, sizeof(T), true); HB_RMW(a, mo); return __atomic_fetch_sub(a, v, __ATOMIC_SEQ_CST); } \
+	T __tsan_atomic##N##_fetch_and(volatile T* a, T v, int mo) { acc((void*)a, sizeof(T), true); HB_RMW(a, mo); return __atomic_fetch_and(a, v, __ATOMIC_SEQ_CST); } \
+	T __tsan_atomic##N##_fetch_or(volatile T* a, T v, int mo) { acc((void*)a, sizeof(T), true); HB_RMW(a, mo); return __atomic_fetch_or(a, v, __ATOMIC_SEQ_CST); } \
+	T __tsan_atomic##N##_fetch_xor(volatile T* a, T v, int mo) { acc((void*)a, sizeof(T), true); HB_RMW(a, mo); return __atomic_fetch_xor(a, v, __ATOMIC_SEQ_CST); } \
+	T __tsan_atomic##N##_fetch_nand(volatile T* a, T v, int mo) { acc((void*)a, sizeof(T), true); HB_RMW(a, mo); return __atomic_fetch_nand(a, v, __ATOMIC_SEQ_CST); } \
+	int __tsan_atomic##N##_compare_exchange_strong(volatile T* a, T* c, T v, int mo, int)                                     \
 	{                                                                                                                          \
-		acc((void*)a, sizeof(T), true);                                                                                        \
+		acc((void*)a, sizeof(T), true); HB_RMW(a, mo);                                                                                       \
 		return __atomic_compare_exchange_n(a, c, v, false, __ATOMIC_SEQ_CST, __ATOMIC_SEQ_CST);                                 \
 	}                                                                                                                          \
-	int __tsan_atomic##N##_compare_exchange_weak(volatile T* a, T* c, T v, int, int)                                          \
+	int __tsan_atomic##N##_compare_exchange_weak(volatile T* a, T* c, T v, int mo, int)                                       \
 	{                                                                                                                          \
-		acc((void*)a, sizeof(T), true);                                                                                        \
+		acc((void*)a, sizeof(T), true); HB_RMW(a, mo);                                                                                       \
 		return __atomic_compare_exchange_n(a, c, v, false, __ATOMIC_SEQ_CST, __ATOMIC_SEQ_CST);                                 \
 	}                                                                                                                          \
-	T __tsan_atomic##N##_compare_exchange_val(volatile T* a, T c, T v, int, int)                                              \
+	T __tsan_atomic##N##_compare_exchange_val(volatile T* a, T c, T v, int mo, int)                                           \
 	{                                                                                                                          \
-		acc((void*)a, sizeof(T), true);                                                                                        \
+		acc((void*)a, sizeof(T), true); HB_RMW(a, mo);                                                                                       \
 		__atomic_compare_exchange_n(a, &c, v, false, __ATOMIC_SEQ_CST, __ATOMIC_SEQ_CST);                                      \
 		return c;                                                                                                              \
 	}
